@@ -34,6 +34,18 @@ Proof.
       now rewrite (nth_error_nth _ _ x Ho), (nth_error_nth _ _ x Ez).
 Qed.
 
+Lemma nth_error_ext' {A} (l l' : list A) : (forall n, nth_error l n = nth_error l' n) -> l = l'.
+Proof.
+  revert l'. induction l as [|a l IH]; intros [|b l'] H; try reflexivity; try (specialize (H 0%nat); discriminate).
+  f_equal; [specialize (H 0%nat); now injection H|]. apply IH. intros n. exact (H (S n)).
+Qed.
+Lemma nth_error_combine_none_l {A B} (l : list A) (l' : list B) n :
+  nth_error l n = None -> nth_error (combine l l') n = None.
+Proof. intros E. apply nth_error_None in E. apply nth_error_None. rewrite combine_length. lia. Qed.
+Lemma nth_error_combine_none_r {A B} (l : list A) (l' : list B) n :
+  nth_error l' n = None -> nth_error (combine l l') n = None.
+Proof. intros E. apply nth_error_None in E. apply nth_error_None. rewrite combine_length. lia. Qed.
+
 Section C05Lift.
 Variables Phi Phiinv : R -> R.
 Local Hint Extern 0 (Num R) => exact (RInst.RN Phi Phiinv) : typeclass_instances.
@@ -151,5 +163,120 @@ Proof.
   - exact Hr.
   - exact Ea0.
   - exact Eb0.
+Qed.
+
+(** ** exchanging the keys of two positions relabels the dense ranks by the transposition *)
+Lemma wfg_combine (ks : list key) (ts : list team) : Forall key_wf ks -> C01L.wfg (combine ks ts).
+Proof.
+  intros W. unfold C01L.wfg. rewrite Forall_forall in *. intros [k t] Hin. cbn [fst].
+  apply W. eapply in_combine_l; exact Hin.
+Qed.
+
+Lemma relabel_swap_game (ks ks' : list key) (ts : list team) i j ki kj :
+  length ks = length ts -> Forall key_wf ks -> no_ties ks ->
+  nth_error ks i = Some ki -> nth_error ks j = Some kj -> key_ltb kj ki = true ->
+  length ks' = length ks -> nth_error ks' i = Some kj -> nth_error ks' j = Some ki ->
+  (forall q, q <> i -> q <> j -> nth_error ks' q = nth_error ks q) ->
+  map (C05L.relabel (C05L.sw (rank_of (combine ks ts) ki) (rank_of (combine ks ts) kj)))
+      (map (tr_of (combine ks ts)) (combine ks ts))
+  = map (tr_of (combine ks' ts)) (combine ks' ts).
+Proof.
+  intros E Wk NT Eki Ekj Hlt E' Eki' Ekj' Ho.
+  set (g := combine ks ts). set (g' := combine ks' ts).
+  pose proof (wfg_combine ks ts Wk) as W. fold g in W.
+  assert (Pk : Permutation ks ks') by (eapply (swap_perm ks ks' i j ki kj); eauto).
+  assert (Eg : map fst g = ks) by (unfold g; now apply combine_map_fst).
+  assert (Eg' : map fst g' = ks') by (unfold g'; apply combine_map_fst; congruence).
+  assert (Hrank : forall k, rank_of g' k = rank_of g k).
+  { intros k. rewrite !C01L.rank_of_count, Eg, Eg'. symmetry. now apply count_less_perm. }
+  assert (Li : (i < length ks)%nat) by (apply nth_error_Some; congruence).
+  assert (Lj : (j < length ks)%nat) by (apply nth_error_Some; congruence).
+  destruct (nth_error ts i) as [t_i|] eqn:Eti; [|apply nth_error_None in Eti; lia].
+  destruct (nth_error ts j) as [t_j|] eqn:Etj; [|apply nth_error_None in Etj; lia].
+  assert (Egi : nth_error g i = Some (ki, t_i)) by (now apply OmegaL.nth_error_combine).
+  assert (Egj : nth_error g j = Some (kj, t_j)) by (now apply OmegaL.nth_error_combine).
+  set (ri := rank_of g ki). set (rj := rank_of g kj).
+  assert (Hr : (rj < ri)%nat).
+  { pose proof (C01L.rank_ltb g _ _ W (nth_error_In _ _ Egj) (nth_error_In _ _ Egi)) as Q.
+    cbn [fst] in Q. rewrite Hlt in Q. now apply Nat.ltb_lt in Q. }
+  apply nth_error_ext'. intros n. rewrite !nth_error_map.
+  destruct (nth_error ts n) as [t|] eqn:Et.
+  2:{ assert (H1 : @nth_error entry g n = None) by (apply nth_error_combine_none_r; exact Et).
+      assert (H2 : @nth_error entry g' n = None) by (apply nth_error_combine_none_r; exact Et).
+      now rewrite H1, H2. }
+  destruct (nth_error ks n) as [kn|] eqn:Ekn.
+  2:{ assert (nth_error ks' n = None) by (apply nth_error_None; apply nth_error_None in Ekn; lia).
+      assert (H1 : @nth_error entry g n = None) by (apply nth_error_combine_none_l; exact Ekn).
+      assert (H2 : @nth_error entry g' n = None) by (apply nth_error_combine_none_l; assumption).
+      now rewrite H1, H2. }
+  destruct (nth_error ks' n) as [kn'|] eqn:Ekn'.
+  2:{ exfalso. apply nth_error_None in Ekn'. assert (n < length ks)%nat by (apply nth_error_Some; congruence). lia. }
+  assert (Egn : @nth_error entry g n = Some (kn, t)) by (now apply OmegaL.nth_error_combine).
+  assert (Egn' : @nth_error entry g' n = Some (kn', t)) by (now apply OmegaL.nth_error_combine).
+  rewrite Egn, Egn'. cbn [option_map]. f_equal.
+  unfold C05L.relabel, C01L.tr_of, team_rating. cbn [t_mu t_ss t_team t_rank fst snd]. f_equal.
+  rewrite Hrank. fold ri rj.
+  assert (Hdist : forall m km tm, m <> n -> nth_error g m = Some (km, tm) -> rank_of g kn <> rank_of g km).
+  { intros m km tm Hm Egm Er.
+    pose proof (C01L.rank_eqb g _ _ W (nth_error_In _ _ Egm) (nth_error_In _ _ Egn)) as Q. cbn [fst] in Q.
+    rewrite Er, Nat.eqb_refl in Q. unfold key_eqb in Q.
+    assert (Ekm : nth_error ks m = Some km) by (rewrite <- Eg; exact (map_nth_error fst _ _ Egm)).
+    rewrite (NT m n km kn Hm Ekm Ekn) in Q. discriminate. }
+  unfold C05L.sw.
+  destruct (Nat.eq_dec n i) as [->|Ni]; [|destruct (Nat.eq_dec n j) as [->|Nj]].
+  - assert (kn = ki) by congruence. assert (kn' = kj) by congruence. subst kn kn'.
+    fold ri. now rewrite Nat.eqb_refl.
+  - assert (kn = kj) by congruence. assert (kn' = ki) by congruence. subst kn kn'.
+    fold rj. rewrite Nat.eqb_refl. destruct (Nat.eqb_spec rj ri); [lia|reflexivity].
+  - assert (kn' = kn) by (rewrite (Ho n Ni Nj) in Ekn'; congruence). subst kn'.
+    pose proof (Hdist i ki t_i (not_eq_sym Ni) Egi) as D1. pose proof (Hdist j kj t_j (not_eq_sym Nj) Egj) as D2.
+    fold ri in D1. fold rj in D2.
+    destruct (Nat.eqb_spec (rank_of g kn) ri); [contradiction|].
+    destruct (Nat.eqb_spec (rank_of g kn) rj); [contradiction|reflexivity].
+Qed.
+
+Theorem rate_exchange k P tau limit (teams : list team) ks ks' i j ki kj res res' :
+  C05L.gf_if_tm Phi Phiinv k -> C05L.full_kind k -> 0 < p_kappa P -> call_dom tau teams ->
+  length ks = length teams -> Forall key_wf ks -> no_ties ks ->
+  nth_error ks i = Some ki -> nth_error ks j = Some kj -> key_ltb kj ki = true ->
+  length ks' = length ks -> nth_error ks' i = Some kj -> nth_error ks' j = Some ki ->
+  (forall q, q <> i -> q <> j -> nth_error ks' q = nth_error ks q) ->
+  nth_error (rate_core k P tau limit teams (Some ks)) i = Some res ->
+  nth_error (rate_core k P tau limit teams (Some ks')) i = Some res' ->
+  Forall2 (fun p p' => r_mu p <= r_mu p') res res'.
+Proof.
+  intros G Hk Hkap Hd E Wk NT Eki Ekj Hlt E' Eki' Ekj' Ho Er Er'.
+  assert (Pk : Permutation ks ks') by (eapply (swap_perm ks ks' i j ki kj); eauto).
+  assert (Wk' : Forall key_wf ks') by (eapply Permutation_Forall; eauto).
+  assert (K : C01L.keys_ok (length teams) (Some ks)) by (split; assumption).
+  assert (K' : C01L.keys_ok (length teams) (Some ks')) by (split; [congruence|assumption]).
+  destruct (rate_full_nth k P tau limit teams (Some ks) i res Hk K Er) as [r0 [E0 Hmu]].
+  destruct (rate_full_nth k P tau limit teams (Some ks') i res' Hk K' Er') as [r0' [E0' Hmu']].
+  set (ts := map (map (inflate tau)) teams).
+  assert (Lts : length ks = length ts) by (unfold ts; now rewrite map_length).
+  change (game_of tau teams (Some ks)) with (combine ks ts) in *.
+  change (game_of tau teams (Some ks')) with (combine ks' ts) in *.
+  set (g := combine ks ts) in *.
+  pose proof (wfg_combine ks ts Wk) as W. fold g in W.
+  assert (Li : (i < length ks)%nat) by (apply nth_error_Some; congruence).
+  assert (Lj : (j < length ks)%nat) by (apply nth_error_Some; congruence).
+  destruct (nth_error ts i) as [t_i|] eqn:Eti; [|apply nth_error_None in Eti; lia].
+  destruct (nth_error ts j) as [t_j|] eqn:Etj; [|apply nth_error_None in Etj; lia].
+  assert (Egi : nth_error g i = Some (ki, t_i)) by (now apply OmegaL.nth_error_combine).
+  assert (Egj : nth_error g j = Some (kj, t_j)) by (now apply OmegaL.nth_error_combine).
+  assert (NTg : no_ties (map fst g)) by (unfold g; now rewrite combine_map_fst).
+  pose proof (C01L.rank_ltb g _ _ W (nth_error_In _ _ Egj) (nth_error_In _ _ Egi)) as Hr.
+  cbn [fst] in Hr. rewrite Hlt in Hr. apply Nat.ltb_lt in Hr.
+  rewrite <- (relabel_swap_game ks ks' ts i j ki kj Lts Wk NT Eki Ekj Hlt E' Eki' Ekj' Ho) in E0'. fold g in E0'.
+  eapply (C05RateL.Forall2_mu_rel Rle); [|exact Hmu|exact Hmu'].
+  eapply (C05L.exchange Phi Phiinv k P (map (tr_of g) g) i (tr_of g (ki, t_i)) j (tr_of g (kj, t_j)) r0 r0' G Hk).
+  - now apply trs_rank_nodup.
+  - exact (game_trs_ss tau teams (Some ks) Hd).
+  - exact Hkap.
+  - apply map_nth_error. exact Egi.
+  - apply map_nth_error. exact Egj.
+  - exact Hr.
+  - exact E0.
+  - exact E0'.
 Qed.
 End C05Lift.
